@@ -55,13 +55,27 @@ var c20Hdrs = []http.Header{nil, {"Referer": {"http://a/$b?c=$d"}, "User-Agent":
 func c20Event(c c20Ev) *Event {
 	req := &http.Request{Method: "GET", RequestURI: "/a/b?x=y", Proto: "HTTP/1.1", Host: "foo.com:8080", RemoteAddr: c.remote, Header: c20Hdrs[c.hdr].Clone(),
 		URL: &url.URL{Path: "/changed"}}
+	reqURL := &url.URL{Scheme: "https", Host: "foo.com:8080", Path: "/a/b", RawQuery: "x=y"}
+	upURL := &url.URL{Scheme: "http", Host: c.upstream, Path: "/b", RawQuery: "x=y"}
+	switch c.hdr {
+	case 2:
+		// paths that need escaping when they are written out (RawPath empty: the default encoding applies)
+		reqURL.Path, upURL.Path = "/a b/caf\u00e9/100%/q\"uote", "/b c/\u00fc/50%"
+	case 3:
+		// paths whose original encoding differs from the default one (RawPath set, as url.Parse leaves it)
+		reqURL, _ = url.Parse("https://foo.com:8080/a%2Fb/c%20d?x=y")
+		upURL, _ = url.Parse("http://" + c.upstream + "/b%2Fc?x=y")
+		if upURL == nil {
+			upURL = &url.URL{Scheme: "http", Host: c.upstream, Path: "/b/c", RawPath: "/b%2Fc", RawQuery: "x=y"}
+		}
+	}
 	return &Event{
 		Start: c.end.Add(-c.dur), End: c.end, Request: req,
 		Response:        &http.Response{StatusCode: c.status, ContentLength: c.size},
-		RequestURL:      &url.URL{Scheme: "https", Host: "foo.com:8080", Path: "/a/b", RawQuery: "x=y"},
+		RequestURL:      reqURL,
 		UpstreamAddr:    c.upstream,
 		UpstreamService: "svc-a",
-		UpstreamURL:     &url.URL{Scheme: "http", Host: c.upstream, Path: "/b", RawQuery: "x=y"},
+		UpstreamURL:     upURL,
 	}
 }
 
@@ -106,7 +120,7 @@ func c20Ref(name string, c c20Ev, e *Event) []string {
 	case "$request_uri":
 		return one("/a/b?x=y")
 	case "$request_url":
-		return one("https://foo.com:8080/a/b?x=y")
+		return one(e.RequestURL.String())
 	case "$request_proto":
 		return one("HTTP/1.1")
 	case "$response_body_size":
@@ -149,7 +163,7 @@ func c20Ref(name string, c c20Ev, e *Event) []string {
 	case "$upstream_request_scheme":
 		return one("http")
 	case "$upstream_request_uri":
-		return one("/b?x=y")
+		return one(e.UpstreamURL.RequestURI())
 	case "$upstream_request_url":
 		return one(e.UpstreamURL.String())
 	case "$upstream_service":
